@@ -355,7 +355,9 @@ enum Op { Ns(&'static str), Name(&'static str), Ver(&'static str), Sub(&'static 
           /// overwrite an EXISTING qualifier through IndexMut, resp. set one through the entry API
           RawIdx(&'static str, &'static str), RawEntry(&'static str, &'static str),
           /// build() and convert the value back into a builder (a failed build leaves the builder as it was)
-          Rebuild }
+          Rebuild,
+          /// the fallible typed setter with a checksum that converts (TCkOk) and one that does not (TCkBad: odd number of hex digits)
+          TCkOk, TCkBad }
 
 #[derive(Clone, Debug, Default)]
 struct BModel { ty: String, ns: String, name: String, ver: String, sub: String, q: BTreeMap<String, String>, bad_key: bool }
@@ -375,6 +377,7 @@ pub fn suite_builder(ctx: &Ctx, thorough: bool) {
     ops.push(Op::RawQ("r", "")); ops.push(Op::RawQ("K", "raw")); ops.push(Op::RawClear("k"));
     ops.push(Op::Ns("a///b")); ops.push(Op::Sub("x////y/"));
     ops.push(Op::TRepo(" r\t")); ops.push(Op::Rebuild);
+    ops.push(Op::TCkOk); ops.push(Op::TCkBad); ops.push(Op::NoQ("\u{212A}")); ops.push(Op::Q("\u{212A}", "v"));
     ops.push(Op::RawIdx("checksum", "SHA256:AABB,md5:00FF")); ops.push(Op::RawIdx("Checksum", "sha256:xyz")); ops.push(Op::RawEntry("checksum", "B:00,a:11")); ops.push(Op::RawEntry("k", ""));
     let len = if thorough { 4 } else { 3 };
     let n = ops.len();
@@ -455,6 +458,20 @@ fn builder_one(ctx: &Ctx, seq: Vec<Op>) {
                 Op::NoTTag => { m.q.remove("tag"); cur.with_typed_qualifier(None::<UpperTag>) },
                 // unsetting a typed qualifier whose declared key is not a valid key: nothing to unset, and no panic (only INSERTING one is a documented panic)
                 Op::NoTBad => { let c2 = cur.clone(); match guarded(move || c2.with_typed_qualifier(None::<BadKey>)) { Ok(nb) => nb, Err(p) => { ctx.violate("C06.panic", "unsetting a typed qualifier never panics", json!(format!("{seq:?}")), p, "no panic".into()); cur } } },
+                Op::TCkOk => {
+                    let mut c = purl::qualifiers::well_known::Checksum::default(); c.insert_raw("SHA1", "AB".to_string());
+                    match guarded(|| cur.clone().try_with_typed_qualifier(Some(c))) {
+                        Ok(Ok(nb)) => { m.q.insert("checksum".into(), "sha1:ab".into()); nb },
+                        other => { ctx.violate("C09.typed", "the fallible typed setter stores a value that converts", json!(format!("{seq:?}")), format!("{:?}", other.map(|r| r.is_ok())), "Ok".into()); cur },
+                    }
+                },
+                Op::TCkBad => {
+                    let mut c = purl::qualifiers::well_known::Checksum::default(); c.insert_raw("sha1", "abc".to_string());
+                    match guarded(|| cur.clone().try_with_typed_qualifier(Some(c))) {
+                        Ok(Err(_)) => cur,           // refused: the builder the caller still holds is unchanged
+                        other => { ctx.violate("C09.typed", "the fallible typed setter refuses a value that does not convert, and sets nothing", json!(format!("{seq:?}")), format!("{:?}", other.map(|r| r.is_ok())), "Err".into()); cur },
+                    }
+                },
                 Op::RawQ(k, v) => { let mut c2 = cur; if c2.parts.qualifiers.insert(*k, *v).is_ok() { m.q.insert(k.to_ascii_lowercase(), v.to_string()); } c2 },
                 Op::RawClear(k) => { let mut c2 = cur; if let Some(v) = c2.parts.qualifiers.get_mut(*k) { v.clear(); m.q.insert(k.to_ascii_lowercase(), String::new()); } c2 },
                 Op::Rebuild => {
@@ -529,6 +546,8 @@ fn builder_one(ctx: &Ctx, seq: Vec<Op>) {
                         Op::Rebuild => { match guarded(|| tb.clone().build()) { Ok(Ok(p)) => p.into_builder(), _ => tb } },
                         Op::RawIdx(k, v) => { let mut c2 = tb; if c2.parts.qualifiers.contains_key(*k) { c2.parts.qualifiers[*k] = SmallString::from(*v); } c2 },
                         Op::RawEntry(k, v) => { let mut c2 = tb; if let Ok(e) = c2.parts.qualifiers.entry(*k) { *e.and_modify(|x| x.clear()).or_insert("") = SmallString::from(*v); } c2 },
+                        Op::TCkOk => { let mut c = purl::qualifiers::well_known::Checksum::default(); c.insert_raw("SHA1", "AB".to_string()); let s0 = tb.clone(); tb.try_with_typed_qualifier(Some(c)).unwrap_or(s0) },
+                        Op::TCkBad => { let mut c = purl::qualifiers::well_known::Checksum::default(); c.insert_raw("sha1", "abc".to_string()); let s0 = tb.clone(); tb.try_with_typed_qualifier(Some(c)).unwrap_or(s0) },
                     };
                 }
                 let rule_ok = t != PackageType::Maven || sig_ns(&m.ns).is_some();
@@ -734,7 +753,7 @@ impl FromStr for Shape {
     }
 }
 
-pub const HOOKS: u8 = 10;
+pub const HOOKS: u8 = 11;
 impl PurlShape for Shape {
     type Error = ShapeErr;
     fn package_type(&self) -> Cow<str> { Cow::Borrowed(&self.ty) }
@@ -752,7 +771,9 @@ impl PurlShape for Shape {
             7 => { parts.name = "Hooked Name".into(); parts.namespace = SmallString::new(); parts.version = SmallString::new(); parts.subpath = SmallString::new(); },
             8 => { parts.qualifiers.clear(); },
             // blanks the checksum: an empty value, removed by the generic checks BEFORE the checksum is looked at
-            _ => { parts.qualifiers.insert("checksum", "").unwrap(); },
+            9 => { parts.qualifiers.insert("checksum", "").unwrap(); },
+            // a checksum whose algorithm name has a non-ASCII capital only: canonicalised like any other
+            _ => { parts.qualifiers.insert("checksum", "\u{3a3}1:AA,b:00").unwrap(); },
         }
         Ok(())
     }
@@ -803,6 +824,7 @@ pub fn suite_protocol(ctx: &Ctx, thorough: bool) {
                     7 => o.name == "Hooked Name" && o.namespace.is_none() && o.version.is_none() && o.subpath.is_none(),
                     8 => o.qualifiers.is_empty(),
                     9 => p.qualifiers().get("checksum").is_none(),
+                    10 => p.qualifiers().get("checksum") == Some("b:00,\u{3c3}1:aa"),
                     _ => true,
                 };
                 if !ok { ctx.violate("C14.post", "what the hook writes is what the PURL reports, after the generic checks", inp(), format!("{o:?}"), format!("hook {hook}")); }
@@ -810,7 +832,7 @@ pub fn suite_protocol(ctx: &Ctx, thorough: bool) {
             } else if f == 1 {
                 let ok = match hook { 2 => matches!(&r, Err(ShapeErr::Parse(m)) if m.contains("Name")), 6 => matches!(&r, Err(ShapeErr::Parse(m)) if m.contains("InvalidQualifier") || m.contains("Name")),
                     // a hook that only adds empty values, clears the list or blanks the checksum cannot turn an accepted string into a refused one
-                    4 | 8 | 9 => !matches!(&generic, Ok(Ok(_))),
+                    4 | 8 | 9 | 10 => !matches!(&generic, Ok(Ok(_))),
                     _ => true };
                 if !ok { ctx.violate("C14.post", "an emptied name / malformed checksum from the hook is refused with the generic error", inp(), format!("{r:?}"), "Parse(..)".into()); }
             }
